@@ -253,6 +253,24 @@ fn c02(quick: bool) -> Vec<Harness> {
     cfg.max_ops = 3;
     cfg.errors = false;
     v.push(ops_harness("splice+sendmsg+open", "C02", cfg, bounds(d(9, 11), d(2, 3), 4)));
+    {
+        // Composite operations: what read_n / recv_n / write_all / send_all resolve with, under every
+        // sequence of kernel answers (the C10 world, reporting as C02).
+        use crate::c10::{C10World, read_cases, write_cases};
+        for (name, cases) in [("composites-write-side", write_cases(true)), ("composites-read-side", read_cases(true))] {
+            let n = cases.len();
+            let cases = std::rc::Rc::new(cases);
+            let (c1, c2) = (cases.clone(), cases.clone());
+            let b = Bounds { depth: 16, dev: 0, d_all: 16, merge: false, shard: (0, 1), cap_s: 0, shard_depth: 1 };
+            v.push(Harness {
+                name: name.to_string(),
+                describe: json!({"engine": "seqx", "world": "C10World (reporting as C02)", "cases": n, "answers": "every sequence of accepted/delivered byte counts 0..remaining, or EIO, for each request"}),
+                bounds: b,
+                run: Box::new(move |b| seqx::explore(&|| C10World::labelled(c1.clone(), "C02"), "C02", b)),
+                replay: Box::new(move |choices| seqx::exec(&|| C10World::labelled(c2.clone(), "C02"), "C02", choices)),
+            });
+        }
+    }
     v
 }
 
@@ -312,7 +330,13 @@ fn c03(quick: bool) -> Vec<Harness> {
             if quick && tasks > 1 {
                 continue;
             }
-            v.push(th_harness("C03", c03_threads(C03Cfg { sq, prefill, kind, repoll_fresh: repoll, tasks, max_polls: 5 }, pb)));
+            v.push(th_harness("C03", c03_threads(C03Cfg { sq, prefill, kind, repoll_fresh: repoll, tasks, max_polls: 5, sqpoll: false }, pb)));
+        }
+        // With a kernel thread the queue is drained at any moment, also between a failed submission and the registration of the waiter.
+        for (sq, prefill) in [(1u32, 1usize), (2, 2)] {
+            let mut h = c03_threads(C03Cfg { sq, prefill, kind: Kind::ReadVec, repoll_fresh: false, tasks: 1, max_polls: 4, sqpoll: true }, pb);
+            h.free_bound = if quick { 2 } else { 0 };
+            v.push(th_harness("C03", h));
         }
     }
     let d = |q: usize, t: usize| if quick { q } else { t };
@@ -499,6 +523,8 @@ fn c08(quick: bool) -> Vec<Harness> {
         cfg.pool = (psize, bsize);
         cfg.held_letters = false;
         cfg.reread_held = true;
+        cfg.edit_held = true;
+        cfg.held_letters = psize == 4;
         cfg.allow_drop = false;
         cfg.faults = false;
         cfg.errors = false;
